@@ -1,7 +1,7 @@
 (** C19 — what the check evaluates: the certificate checkers applied to the implementation's
     outputs ([c_*], the decision), the finding classes ([k_*]). *)
 From Coq Require Import ZArith List Bool.
-From GV Require Export Algo.Cert.
+From GV Require Export Algo.Cert Algo.Model.
 Import ListNotations.
 Open Scope Z_scope.
 
@@ -71,3 +71,35 @@ Fixpoint k_dfs_all_loop (g : graph) (roots visited : list Z) : bool :=
            existsb (fun v => memb v visited) R || k_dfs_all_loop g rest (R ++ visited)
   end.
 Definition k_dfs_all (g : graph) : bool := k_dfs_all_loop g (nodes g) [].
+
+(** * model = implementation (correspondence) *)
+Definition maps_eq (ns : list Z) (a b : list (Z * Z)) : bool :=
+  forallb (fun v => oz_eqb (lookup a v) (lookup b v)) ns && forallb (fun kv => memb (fst kv) ns) b.
+(** Bellman-Ford: distances, predecessors and flag of the transcribed model equal the implementation's
+    (the graph's edge list is given in the implementation's enumeration order) *)
+Definition chk_bf (g : graph) (s : Z) (d pred : list (Z * Z)) (flag : bool) : bool :=
+  match bf_model g s with
+  | (md, mp, mf) => Bool.eqb mf flag && maps_eq (nodes g) md d && maps_eq (nodes g) mp pred
+  end.
+Definition show_bf (g : graph) (s : Z) := bf_model g s.
+(** bfs / dfs visit exactly the model's closure *)
+Definition chk_reach (g : graph) (s : Z) (l : list Z) : bool := same_set l (reach_model g s).
+(** Kruskal as implemented (with the seen_edges filter): the chosen edge ids, in order *)
+Fixpoint zlist_eqb (a b : list Z) : bool :=
+  match a, b with [] , [] => true | x :: r, y :: t => (x =? y) && zlist_eqb r t | _, _ => false end.
+Definition chk_kruskal (g : graph) (ids : list Z) (total : Z) : bool :=
+  let T := kruskal_model g in zlist_eqb (map eid T) ids && (wsum T =? total).
+Definition show_kruskal (g : graph) := map eid (kruskal_model g).
+(** the repaired Kruskal always passes the certificate (evaluated on every generated graph) *)
+Definition chk_kruskal_fixed (g : graph) : bool := msf_cert g (kruskal_fixed g).
+(** Dijkstra as transcribed: the distances of the model equal the implementation's (which of several
+    equal-distance heap entries is popped first is not observable in the distances; predecessors may
+    differ on ties and are certified separately by [c_pred]).  Fuel: with non-negative weights there
+    is at most one push per edge. *)
+Definition dij_fuel (g : graph) : nat := 4 * (length (edges g) + 2) * (length (nodes g) + 2).
+Definition chk_dijkstra (g : graph) (s : Z) (d : list (Z * Z)) : bool :=
+  match dijkstra_model g s (dij_fuel g) with
+  | Some st => maps_eq (nodes g) (dd st) d
+  | None => false
+  end.
+Definition show_dijkstra (g : graph) (s : Z) := option_map dd (dijkstra_model g s (dij_fuel g)).
